@@ -447,6 +447,13 @@ impl<R: RefCounter, PR: PathRefCounter, H: Header> Memory<R, PR, H> {
 
           let allocated = (*header_ptr).load_allocated() as usize;
 
+          // the mapping must cover everything the file says is allocated
+          if allocated > cap {
+            return Err(invalid_input(
+              "the mapping is shorter than the allocated part of the ARENA",
+            ));
+          }
+
           if cap > allocated {
             ptr::write_bytes(ptr.add(allocated), 0, cap - allocated as usize);
           }
@@ -597,6 +604,15 @@ impl<R: RefCounter, PR: PathRefCounter, H: Header> Memory<R, PR, H> {
           &mmap[reserved..reserved + mem::align_of::<H>()],
         )?;
         let data_offset = header_ptr_offset + mem::size_of::<H>();
+
+        // the mapping must cover everything the file says is allocated, otherwise
+        // `allocated_memory()` and the readers would reach past it
+        let allocated = (*ptr.add(header_ptr_offset).cast::<H>()).load_allocated() as usize;
+        if allocated > len {
+          return Err(invalid_input(
+            "the mapping is shorter than the allocated part of the ARENA",
+          ));
+        }
 
         let this = Self {
           cap: len as u32,
